@@ -113,15 +113,21 @@ ValueSeq(ver) == CASE ver = "2.0" -> Vals20
 
 Rng(s) == {s[i] : i \in DOMAIN s}
 
-MetricSet(ver) == Rng(Order(ver))
-Values(ver, m) == Rng(ValueSeq(ver)[m])
+(* tables evaluated once by TLC (constant definitions); note that TLC decides constancy  *)
+(* by NAME: no model may declare a state variable called ver, m, i or s                *)
+MetricSetT == [ver \in VersionSet |-> Rng(Order(ver))]
+MetricSet(ver) == MetricSetT[ver]
+ValuesT == [ver \in VersionSet |-> [m \in MetricSetT[ver] |-> Rng(ValueSeq(ver)[m])]]
+Values(ver, m) == ValuesT[ver][m]
 
 BaseSeq(ver) == CASE ver = "2.0" -> Base20
                   [] ver = "3.0" -> Base3x
                   [] ver = "3.1" -> Base3x
                   [] ver = "4.0" -> Base40
-Mandatory(ver) == Rng(BaseSeq(ver))
-Optional(ver) == MetricSet(ver) \ Mandatory(ver)
+MandatoryT == [ver \in VersionSet |-> Rng(BaseSeq(ver))]
+Mandatory(ver) == MandatoryT[ver]
+OptionalT == [ver \in VersionSet |-> MetricSetT[ver] \ MandatoryT[ver]]
+Optional(ver) == OptionalT[ver]
 
 Undef(ver) == IF ver = "2.0" THEN "ND" ELSE "X"
 
@@ -133,7 +139,8 @@ Header(ver) == CASE ver = "2.0" -> ""
                  [] ver = "4.0" -> "CVSS:4.0"
 
 (* position of metric m in the specification order *)
-Pos(ver, m) == CHOOSE i \in DOMAIN Order(ver) : Order(ver)[i] = m
+PosT == [ver \in VersionSet |-> [m \in MetricSetT[ver] |-> CHOOSE i \in DOMAIN Order(ver) : Order(ver)[i] = m]]
+Pos(ver, m) == PosT[ver][m]
 
 (* v2 groups: a started group must be written in full *)
 Groups20 == <<Base20, Temp20, Env20>>
